@@ -35,8 +35,17 @@ theorem matVec_unitVec_getD (M : Mat) (r c k j : Nat) (hM : Shaped M r c) (hk : 
   rw [matVec_getD M _ j (by rw [hM.1]; exact hj), dot_unitVec _ c k (getD_mem_shaped M r c j hM hj) hk]
   rfl
 
+/-- what the least-squares arguments need of a reproducing matrix: its shape and the reproduction of every coefficient
+list at every parameter (the degrees of the two vectors may differ) -/
+structure ReproW (k0 k : KV) (M : Mat) : Prop where
+  shaped : Shaped M k.npts k0.npts
+  repro : ∀ f : List Rat, f.length = k0.npts → ∀ u, k0.umin ≤ u ∧ u ≤ k0.umax →
+    dot (cdbRow k.v k.umax k.npts k.deg u) (matVec M f) = dot (cdbRow k0.v k0.umax k0.npts k0.deg u) f
+
+theorem Repro.toW {k0 k : KV} {M : Mat} (h : Repro k0 k M) : ReproW k0 k M := ⟨h.shaped, h.repro⟩
+
 /-- node by node: `Mᵀ · F = G` for the evaluation matrices of the two vectors on the same nodes -/
-theorem repro_nodes (k0 k : KV) (M : Mat) (hrep : Repro k0 k M) (nodes : List Rat) (hne : 0 < nodes.length)
+theorem repro_nodes (k0 k : KV) (M : Mat) (hrep : ReproW k0 k M) (nodes : List Rat) (hne : 0 < nodes.length)
     (hin : ∀ x ∈ nodes, k0.umin ≤ x ∧ x ≤ k0.umax) :
     (toM k.npts k0.npts M).transpose
         * toM k.npts nodes.length (transpose (nodes.map (cdbRow k.v k.umax k.npts k.deg)))
@@ -71,7 +80,7 @@ theorem transpose_cdbRows_shaped (k : KV) (nodes : List Rat) (hne : 0 < nodes.le
   transpose_shaped _ nodes.length k.npts (cdbRows_shaped k nodes) hne
 
 /-- one span of the accumulation preserves the invariant -/
-theorem gram_step (k0 k : KV) (M : Mat) (hrep : Repro k0 k M) (g0 : GoodKV k0) (g1 : GoodKV k)
+theorem gram_step (k0 k : KV) (M : Mat) (hrep : ReproW k0 k M) (g0 : GoodKV k0) (g1 : GoodKV k)
     (hc0 : orderedCheck k0 = true) (hc1 : orderedCheck k = true)
     (gr : Gram) (hinv : GramInv k0 k M gr) (nodes : List Rat) (hne : nodes ≠ []) (ws : List Rat) (F G : Mat)
     (hF : evalNodes k none nodes k.deg = .ok F) (hG : evalNodes k0 none nodes k0.deg = .ok G) :
@@ -121,7 +130,7 @@ theorem openLinspace_ne_nil (n : Nat) (hn : 0 < n) : openLinspace n ≠ [] := by
   omega
 
 /-- the Gram matrices of `func2func` satisfy `GF · M = GG` -/
-theorem gramMatrices_inv (k0 k : KV) (M : Mat) (hrep : Repro k0 k M) (g0 : GoodKV k0) (g1 : GoodKV k)
+theorem gramMatrices_inv (k0 k : KV) (M : Mat) (hrep : ReproW k0 k M) (g0 : GoodKV k0) (g1 : GoodKV k)
     (hc0 : orderedCheck k0 = true) (hc1 : orderedCheck k = true) (gr : Gram)
     (h : gramMatrices k none k0 none = .ok gr) : GramInv k0 k M gr := by
   unfold gramMatrices at h
@@ -149,7 +158,7 @@ theorem gramMatrices_inv (k0 k : KV) (M : Mat) (hrep : Repro k0 k M) (g0 : GoodK
       simp only [toM_zeros, Matrix.zero_mul]
 
 /-- **knot removal is a left inverse of knot insertion**: `T · M = I` -/
-theorem knotRemove_left_inverse (k0 k : KV) (M T E : Mat) (hrep : Repro k0 k M) (g0 : GoodKV k0) (g1 : GoodKV k)
+theorem knotRemove_left_inverse (k0 k : KV) (M T E : Mat) (hrep : ReproW k0 k M) (g0 : GoodKV k0) (g1 : GoodKV k)
     (hc0 : orderedCheck k0 = true) (hc1 : orderedCheck k = true)
     (h : spline2spline k k0 none = .ok (T, E)) : Shaped T k0.npts k.npts ∧ matMul T M = identity k0.npts := by
   unfold spline2spline func2func at h
@@ -187,7 +196,7 @@ theorem knotRemove_left_inverse (k0 k : KV) (M T E : Mat) (hrep : Repro k0 k M) 
 
 /-- the same for the constrained fit (interpolation nodes `ns`): `T · M = I` -/
 theorem fit_left_inverse (k0 k : KV) (M T E : Mat) (fitNodes : Option (List Rat)) (hfn : ∀ ns, fitNodes = some ns → ns ≠ [])
-    (hrep : Repro k0 k M) (g0 : GoodKV k0) (g1 : GoodKV k)
+    (hrep : ReproW k0 k M) (g0 : GoodKV k0) (g1 : GoodKV k)
     (hc0 : orderedCheck k0 = true) (hc1 : orderedCheck k = true)
     (h : spline2spline k k0 fitNodes = .ok (T, E)) : Shaped T k0.npts k.npts ∧ matMul T M = identity k0.npts := by
   cases fitNodes with
